@@ -118,7 +118,7 @@ Definition values_admissible (rs : list rule) : bool :=
   && match find_rule "additionalProperties" rs with
      | Some (VStr s) =>
        if is_user_type_name s then match user_type_kind s with Some _ => true | None => false end
-       else (s =? "any") || (s =? "true") || (s =? "false") || mem s valid_schema_types
+       else (s =? "any") || (s =? "true") || (s =? "false") || addprops_type_name s
      | _ => true
      end
   && match get_str "allOf" rs with
